@@ -1,6 +1,6 @@
 (* C11 — Unfragment merges touching same-text cues, keeps the display, (inverts Fragment). *)
 From Coq Require Import List ZArith NArith Permutation.
-From Astisub Require Import Kit.Base Model.Ops Proofs.OrderProofs Proofs.UnfragProofs.
+From Astisub Require Import Kit.Base Model.Ops Proofs.OrderProofs Proofs.UnfragProofs Proofs.InverseProofs.
 Import ListNotations.
 Open Scope Z_scope.
 
@@ -20,9 +20,12 @@ Proof. exact unfragment_fixpoint. Qed.
 Theorem C11_idempotent : forall l, wf l -> unfragment (unfragment l) = unfragment l.
 Proof. exact unfragment_idempotent. Qed.
 
-(* The inverse law  unfragment (fragment f l) ~ l  (for start-ordered l free of touching same-text
-   cues) is NOT proved here; it is exercised by the correspondence (model and implementation composed,
-   all f in 1..5 on the exhaustive grid) and by the harness oracle.  See DESIGN.md, C11. *)
+(* Unfragment inverts Fragment: for a start-ordered list free of touching same-text cues (cues of
+   positive length) and any f > 0, every cue's times and content come back, in the same order.
+   (Identity tags are not restored: a merged cue is the first piece, a copy.) *)
+Theorem C11_inverse : forall f l, 0 < f -> sorted l -> no_touch l -> Forall (fun x => st x < en x) l ->
+  map proj (unfragment (fragment f l)) = map proj l.
+Proof. exact unfragment_fragment. Qed.
 
 Example C11_example :
   let mk u s e t := mkItem u s e [mkLine [mkRun [t] None false] []] None None false in
@@ -33,3 +36,4 @@ Proof. reflexivity. Qed.
 Print Assumptions C11_unfragment.
 Print Assumptions C11_fixpoint.
 Print Assumptions C11_idempotent.
+Print Assumptions C11_inverse.
